@@ -13,10 +13,25 @@ Qed.
 Lemma rk_eqb_spec a b : rk_eqb a b = true <-> a = b.
 Proof. destruct a, b; simpl; split; intro H; try reflexivity; discriminate. Qed.
 
-Lemma obs_eqb_spec a b : obs_eqb a b = true <-> a = b.
+Lemma memb_in t l : memb t l = true <-> In t l.
 Proof.
-  destruct a as [e1 r1], b as [e2 r2]; unfold obs_eqb; simpl. rewrite andb_true_iff.
-  rewrite (list_eqb_spec ev_eqb ev_eqb_spec), rk_eqb_spec. split; [intros [-> ->]; reflexivity | intros H; injection H; auto].
+  unfold memb. rewrite existsb_exists. split.
+  - intros (x & Hx & E). apply Nat.eqb_eq in E. now subst.
+  - intros H. exists t. split; [exact H | apply Nat.eqb_refl].
+Qed.
+Lemma subset_incl a b : subset a b = true <-> (forall t, In t a -> In t b).
+Proof.
+  unfold subset. rewrite forallb_forall. split; intros H t Ht; [apply memb_in | apply memb_in]; auto.
+Qed.
+
+(* the comparison: events and what run() raised exactly; the bodies that ran as a set *)
+Lemma obs_eqb_spec a b :
+  obs_eqb a b = true <->
+  o_events a = o_events b /\ o_raised a = o_raised b /\ (forall t, In t (o_ran a) <-> In t (o_ran b)).
+Proof.
+  unfold obs_eqb. rewrite !andb_true_iff, (list_eqb_spec ev_eqb ev_eqb_spec), rk_eqb_spec, !subset_incl. split.
+  - intros [[[H1 H2] H3] H4]. repeat split; auto.
+  - intros (H1 & H2 & H3). repeat split; auto; intros t; apply H3.
 Qed.
 
 Lemma bracket_some f evs out :
@@ -31,9 +46,11 @@ Proof.
   unfold spec_okb, Spec. destruct (bracket (i_flavour i) (o_events o)) as [out|] eqn:B; [|discriminate].
   intros H. exists out. split; [exact (bracket_some _ _ _ B)|].
   destruct (find _ (raised (i_prog i))) as [e|] eqn:F.
-  - apply andb_true_iff in H as [H1 H2]. apply outcome_eqb_spec in H1. apply rk_eqb_spec in H2. split.
+  - apply andb_true_iff in H as [H H3]. apply andb_true_iff in H as [H1 H2].
+    apply outcome_eqb_spec in H1. apply rk_eqb_spec in H2. split.
     + intros All. apply find_some in F. destruct F as [Fin Fb]. rewrite (All e Fin) in Fb. discriminate.
-    + intros e' He'. injection He' as <-. split; assumption.
+    + intros e' He'. injection He' as <-. split; [assumption|]. split; [assumption|].
+      intros t Ht. rewrite forallb_forall in H3. apply memb_in. exact (H3 t Ht).
   - apply rk_eqb_spec in H. split; [intros _; exact H | intros e' He'; discriminate].
 Qed.
 
@@ -88,20 +105,39 @@ Proof.
   induction t as [|e r IH]; simpl; [reflexivity|]. destruct e; simpl; rewrite ?IH; reflexivity.
 Qed.
 
-Lemma model_obs i :
-  model i = {| o_events := if has_stop (i_flavour i)
-                           then [Start; Out (deliver (i_flavour i) (fst (verdict_of (i_prog i)))); Stop]
-                           else [Start; Out (deliver (i_flavour i) (fst (verdict_of (i_prog i))))];
-               o_raised := match snd (verdict_of (i_prog i)) with Some e => kind_of e | None => RNone end |}.
+(* every body that is to run wrote its token *)
+Lemma tokens_shape l t : In t (tokens_of l) <-> In (STok t) (map shape l).
 Proof.
-  unfold model. destruct (run_verdict (i_prog i) []) as (s & d & R & C & _). rewrite R.
-  rewrite events_of_calls, C. unfold events_of. cbn [flat_map app]. destruct (has_stop (i_flavour i)); reflexivity.
+  unfold tokens_of. rewrite in_flat_map, in_map_iff. split.
+  - intros (e & He & Ht). exists e. destruct e; try contradiction. destruct Ht as [<-|[]]. split; [reflexivity | exact He].
+  - intros (e & Hs & He). exists e. split; [exact He|]. destruct e; try discriminate. injection Hs as ->. left; reflexivity.
+Qed.
+Lemma expected_tokens_in p t : In t (expected_tokens p) <-> In (STok t) (expected_log p).
+Proof.
+  unfold expected_tokens. rewrite in_flat_map. split.
+  - intros (e & He & Ht). destruct e; [|contradiction]. destruct Ht as [<-|[]]. exact He.
+  - intros H. exists (STok t). split; [exact H | left; reflexivity].
+Qed.
+
+Lemma model_obs i :
+  exists ran,
+    model i = {| o_events := if has_stop (i_flavour i)
+                             then [Start; Out (deliver (i_flavour i) (fst (verdict_of (i_prog i)))); Stop]
+                             else [Start; Out (deliver (i_flavour i) (fst (verdict_of (i_prog i))))];
+                 o_raised := match snd (verdict_of (i_prog i)) with Some e => kind_of e | None => RNone end;
+                 o_ran := ran |}
+    /\ forall t, In t ran <-> In t (expected_tokens (i_prog i)).
+Proof.
+  unfold model. destruct (run_verdict (i_prog i) []) as (s & d & R & C & L & _). rewrite R.
+  exists (tokens_of (log s)). split.
+  - rewrite events_of_calls, C. unfold events_of. cbn [flat_map app]. destruct (has_stop (i_flavour i)); reflexivity.
+  - intros t. rewrite tokens_shape, L, expected_tokens_in. reflexivity.
 Qed.
 
 Theorem model_meets_spec i : wf i = true -> spec_okb i (model i) = true.
 Proof.
   intros W. unfold wf in W. apply andb_true_iff in W as [_ Wh]. fold (handlers_within_Exception (i_prog i)) in Wh.
-  rewrite model_obs. unfold spec_okb. cbn [o_events o_raised].
+  destruct (model_obs i) as (ran & -> & Hran). unfold spec_okb. cbn [o_events o_raised o_ran].
   assert (B : bracket (i_flavour i)
                 (if has_stop (i_flavour i)
                  then [Start; Out (deliver (i_flavour i) (fst (verdict_of (i_prog i)))); Stop]
@@ -111,7 +147,8 @@ Proof.
   rewrite B.
   destruct (find (fun e => negb (derives_from_Exception e)) (raised (i_prog i))) as [e|] eqn:F.
   - rewrite (verdict_base _ _ Wh F). cbn [fst snd].
-    rewrite (proj2 (outcome_eqb_spec _ _) eq_refl), (proj2 (rk_eqb_spec _ _) eq_refl). reflexivity.
+    rewrite (proj2 (outcome_eqb_spec _ _) eq_refl), (proj2 (rk_eqb_spec _ _) eq_refl). cbn [andb].
+    apply forallb_forall. intros t Ht. apply memb_in, Hran, Ht.
   - rewrite (verdict_no_base _ Wh F). reflexivity.
 Qed.
 
@@ -130,7 +167,7 @@ Qed.
 (* ... and on what each result flavour receives *)
 Theorem bracket_delivered i :
   exists o, o_events (model i) = if has_stop (i_flavour i) then [Start; Out o; Stop] else [Start; Out o].
-Proof. rewrite model_obs. eexists. reflexivity. Qed.
+Proof. destruct (model_obs i) as (ran & -> & _). eexists. reflexivity. Qed.
 
 (* C01_base_reported: an exception outside Exception raised anywhere is reported as the error,
    every stage and cleanup still runs (the log is the full expected one), and the first such
@@ -212,3 +249,8 @@ Lemma table_facts :
   /\ (run_passes_table = true /\ length generated_handlers = length exception_handlers).
 Proof. exact (conj table_last_resort (conj table_outcomes (conj table_within_Exception
              (conj table_catch_all_last table_complete)))). Qed.
+
+(* whatever is raised - with or without an exception outside Exception - the bodies that ran are
+   exactly the ones that are to run: setUp; test and tearDown iff setUp returned; every cleanup *)
+Theorem all_bodies_ran i : forall t, In t (o_ran (model i)) <-> In t (expected_tokens (i_prog i)).
+Proof. destruct (model_obs i) as (ran & -> & H). exact H. Qed.
